@@ -31,6 +31,9 @@ class FakeBroker(object):
     def disconnect(self):
         pass
 
+    def connected(self):
+        return True
+
     def pending(self, api_key):
         return [(c, d) for (k, c, d) in self.requests if k == api_key and not d.called]
 
